@@ -626,10 +626,11 @@ def _coll_oracle(interp, env, f, args, t, bb, path):
         if nm in ("reverse",):
             view_set(interp, v0, items[::-1])
             return unit
-        if nm == "shuffle":
+        if nm == "shuffle" or (nm == "partial_shuffle" and len(args) == 3 and isinstance(args[2], int) and args[2] >= len(items) - 1):
+            # (`partial_shuffle(rng, amount)` with amount >= len - 1 runs the very loop of `shuffle`)
             path.events.append(Event("shuffle", bb, v0.vid))
             interp.mstate["shuffled"] = interp.mstate.get("shuffled", ()) + (v0.vid,)
-            return unit
+            return unit if nm == "shuffle" else Agg("tuple", None, None, [TOP, TOP])
         by_ref = (f.get("resolved", {}).get("key") or "").startswith("<&") or ((f.get("gargs") or [""])[0].startswith("&")) or not isinstance(a0, Vec) or a0.borrowed
         if nm in ("retain", "retain_mut") and len(args) == 2 and sa == "alloc::vec::Vec" and v0.lo is None:
             # the predicate may be a stateful FnMut (a counter captured by value): it lives in a cell and is called through a reference
@@ -1035,6 +1036,20 @@ def _coll_oracle(interp, env, f, args, t, bb, path):
             return some(it.items[0])
         if nm == "next":
             return some(it.items[0]) if it.items else NONE
+        if nm == "next_back" and isinstance(a0, Ref):
+            if not it.items:
+                return NONE
+            r_ = a0
+            for _ in range(4):
+                tgt_ = interp.read_ref(env, r_)
+                if isinstance(tgt_, Ref):
+                    r_ = tgt_
+                else:
+                    break
+            interp.write_ref(env, r_, It(it.items[:-1], extra=it.extra))
+            return some(it.items[-1])
+        if nm == "next_back":
+            return some(it.items[-1]) if it.items else NONE
         if nm in ("cloned", "copied"):
             return It([load1(interp, env, x) for x in it.items])
         if nm in ("circular_tuple_windows", "tuple_windows"):
